@@ -15,6 +15,7 @@ mod eng_foreign;
 mod eng_device;
 mod eng_copy;
 mod eng_mutants;
+mod eng_sfloat;
 
 #[global_allocator]
 static ALLOC: eng_mutants::Counting = eng_mutants::Counting;
@@ -59,6 +60,7 @@ fn exec_line(engine: &str, line: &str) -> String {
         "device" => eng_device::exec(line),
         "copy" | "tools" => eng_copy::exec(line),
         "mutants" => eng_mutants::exec(line),
+        "sfloat" => eng_sfloat::exec(line),
         "devdbg" => eng_device::debug_read_fault(line),
         _ => "BADENGINE".into(),
     }
@@ -94,6 +96,7 @@ fn main() {
                 "copy" => eng_copy::generate(&mut sink, seed, thorough),
                 "tools" => eng_copy::generate_tools(&mut sink, seed, thorough),
                 "mutants" => eng_mutants::generate(&mut sink, seed, thorough),
+                "sfloat" => eng_sfloat::generate(&mut sink, seed, thorough),
                 _ => {
                     eprintln!("unknown engine {engine}");
                     std::process::exit(2);
